@@ -1053,6 +1053,12 @@ func opUnStake(pc *uint64, interpreter *EVMInterpreter, callContext *callCtx) ([
 		} else {
 			refundInfo := types.RefundInfoList{}
 
+			// never escrow more than the stake actually released (the request may
+			// carry a fraction of a token or exceed the stake)
+			if money.Cmp(realMoney) > 0 {
+				money = new(big.Int).Set(realMoney)
+			}
+
 			// refund too much,do not a miner anymore
 			if realMoney.Cmp(money) > 0 {
 				remain := big.NewInt(0)
